@@ -261,7 +261,7 @@ def native_perturb(cfgname, n, locs, vals, lc, av, vv):
         ns.free()
 
 def replay(data):
-    if data.get('kind') == 'copy_tree': return native_copy_tree(data['gravity'], data['collision'], data['N'])
+    if data.get('kind') == 'copy_tree': return native_copy_tree(data['gravity'], data['collision'], data['N'], via=data.get('via'))
     cfgname, n = data['cfg'], data['n']
     dom = UF(); I = new_interp(dom, P.StrictCtx()); I.concrete_env = True
     sim = P.build_engine_state(I, P.CONFIGS[cfgname], n)
@@ -277,7 +277,7 @@ def run_copy_tree(u):
     import c15
     from fractions import Fraction
     rep = Report(); grav, coll, N = u['gravity'], u['collision'], u['N']
-    label = "copy with tree gravity=%s collision=%s N=%d " % (grav, coll, N)
+    label = "%s with tree gravity=%s collision=%s N=%d " % ('save + restore' if u.get('via') == 'file' else 'copy', grav, coll, N)
     L = build.layout()
     def run(ctx):
         dom = Real(); I = new_interp(dom, ctx); I.concrete_env = True; I.loop_bound = 100000
@@ -293,8 +293,12 @@ def run_copy_tree(u):
             pb = I.mem.alloc(psz, 'newp%d' % i, 'harness', zero=True); pv = SimView(I, pb, 'reb_particle')
             pv.set('x', x); pv.set('y', Fraction(1, 3) + i); pv.set('z', Fraction(1, 3)); pv.set('m', Fraction(1)); pv.set('r', Fraction(1, 100))
             I.call('@reb_simulation_add', [sim.ptr, pb])          # the real add path (inserts into the tree when one is needed)
-        cp = I.call('@reb_simulation_copy', [sim.ptr])
-        csim = SimView(I, cp, 'reb_simulation')
+        if u.get('via') == 'file':
+            import persist as P_
+            P_.save(I, sim, 'tree.bin'); csim = P_.load(I, 'tree.bin', 0)
+        else:
+            cp = I.call('@reb_simulation_copy', [sim.ptr])
+            csim = SimView(I, cp, 'reb_simulation')
         a = c15.tree_cells(I, sim); b = c15.tree_cells(I, csim)
         snap = lambda cells: [dict(pt=c15.s32(c.get('pt')), w=c.get('w'), x=c.get('x'), y=c.get('y'), z=c.get('z'), depth=d_) for c, d_, par, p in cells]
         return I, dom, snap(a), snap(b), csim.get('N')
@@ -306,8 +310,8 @@ def run_copy_tree(u):
         rep.paths += 1; rep.add_interp(I)
         ob = Obligations(rep, Prover(t_inproc_ms=5000, use_external=False), label + "path%d " % rep.paths)
         def on_sat(model):
-            ok, detail = native_copy_tree(grav, coll, N)
-            return ok, 'C17:copy:tree:%s/%s' % (grav, coll), detail, dict(kind='copy_tree', gravity=grav, collision=coll, N=N)
+            ok, detail = native_copy_tree(grav, coll, N, via=u.get('via'))
+            return ok, 'C17:copy:tree:%s/%s' % (grav, coll), detail, dict(kind='copy_tree', gravity=grav, collision=coll, N=N, via=u.get('via'))
         la = sorted(c['pt'] for c in a if isinstance(c['pt'], int) and c['pt'] >= 0); lb = sorted(c['pt'] for c in b if isinstance(c['pt'], int) and c['pt'] >= 0)
         ob.prove("the source has a tree exactly when one is needed", (la == list(range(N))) == needs and (needs or not a), [], on_sat=on_sat, domain='structure')
         ob.prove("the copy's tree holds the same particles as the source's", la == lb and Nc == N, [], on_sat=on_sat, domain='structure', sample=dict(source_leaves=la, copy_leaves=lb))
@@ -316,11 +320,11 @@ def run_copy_tree(u):
             for i in la:
                 ob.prove("particle %d sits in the same cell in the copy" % i, z3.And(*[dom.z(ka[i][f]) == dom.z(kb[i][f]) for f in ('w', 'x', 'y', 'z')]), list(ctx.pc), on_sat=on_sat, domain='REAL')
         rep.witnesses += 1
-    bad, detail = native_copy_tree(grav, coll, N); rep.replays += 1
-    if bad: rep.violations.append(dict(key='C17:copy:tree:%s/%s' % (grav, coll), what=detail, replay=dict(kind='copy_tree', gravity=grav, collision=coll, N=N), obligation=label + 'native twin'))
+    bad, detail = native_copy_tree(grav, coll, N, via=u.get('via')); rep.replays += 1
+    if bad: rep.violations.append(dict(key='C17:copy:tree:%s/%s' % (grav, coll), what=detail, replay=dict(kind='copy_tree', gravity=grav, collision=coll, N=N, via=u.get('via')), obligation=label + 'native twin'))
     return rep
 
-def native_copy_tree(grav, coll, N):
+def native_copy_tree(grav, coll, N, via=None):
     """native: two particles on a collision course; source and copy must resolve the same collision"""
     N_ = nat(); L = N_.L
     ns = N_.create()
@@ -332,7 +336,15 @@ def native_copy_tree(grav, coll, N):
         ns.set('collision_resolve', ctypes.cast(N_.lib.reb_collision_resolve_merge, ctypes.c_void_p).value)
         ns.add(m=1.0, x=-0.5, vx=1.0, r=0.05); ns.add(m=1.0, x=0.5, vx=-1.0, r=0.05)
         for k in range(2, N): ns.add(m=1e-3, x=3.0, y=1.0 * k, r=0.01)
-        cp = NSim(N_, N_.lib.reb_simulation_copy(ns.addr))
+        if via == 'file':
+            import tempfile, os as _os
+            d_ = tempfile.mkdtemp(prefix='llsym_c05t_'); fn_ = _os.path.join(d_, 't.bin').encode()
+            sv = N_.lib.reb_simulation_save_to_file; sv.argtypes = [ctypes.c_void_p, ctypes.c_char_p]; sv.restype = None; sv(ns.addr, fn_)
+            ld = N_.lib.reb_simulation_create_from_file; ld.argtypes = [ctypes.c_char_p, ctypes.c_int64]; ld.restype = ctypes.c_void_p
+            cp = NSim(N_, ld(fn_, 0))
+            import shutil; shutil.rmtree(d_, ignore_errors=True)
+        else:
+            cp = NSim(N_, N_.lib.reb_simulation_copy(ns.addr))
         cp.set('collision_resolve', ctypes.cast(N_.lib.reb_collision_resolve_merge, ctypes.c_void_p).value)       # function pointers are not copied (documented)
         try:
             has = (ns.get('tree_root') or 0) != 0, (cp.get('tree_root') or 0) != 0
